@@ -336,6 +336,29 @@ def evaluate(case):
                 fails.append("%s: after one dump with an explicit main variant, a plain dump of the same object differs from its first plain dump" % what)
         except Exception as exc:
             fails.append("%s: dump with an explicit main variant, then a plain dump: %s: %s" % (what, type(exc).__name__, exc))
+    if not fails:
+        # the object that was just written, and the re-read one, get one more platform with an image table - added IN PLACE to
+        # the public set and table - and are written again: the file must say so and must be readable
+        for label, tt in (("written", t), ("re-read", t2)):
+            try:
+                tt.tree.platforms.add("zzplat")
+                tt.images.images["zzplat"] = {"kernel": "images/zz/vmlinuz"}
+                f3 = io.StringIO()
+                tt.dump(f3, main_variant=mv)
+                g3 = ini_parse(f3.getvalue())
+                for sec_, opt in (("tree", "platforms"), ("general", "platforms")):
+                    if "zzplat" not in g3.get(sec_, {}).get(opt, "").split(","):
+                        fails.append("%s: a platform added in place to the %s object after a dump is missing from [%s] %s = %r of the next dump"
+                                     % (what, label, sec_, opt, g3.get(sec_, {}).get(opt)))
+                if "images-zzplat" not in g3:
+                    fails.append("%s: an image table added to the %s object after a dump is missing from the next dump" % (what, label))
+                t5 = TreeInfo()
+                t5.loads(f3.getvalue())
+            except Exception as exc:
+                fails.append("%s: %s object edited in place (one more platform with images) and written again: %s: %s"
+                             % (what, label, type(exc).__name__, exc))
+            if fails:
+                break
     return fails[:6]
 
 
@@ -395,7 +418,9 @@ def compare_trees(a, b):
 TS = {"intfloat": 1432300000.0, "fraction": 1386856788.124593, "huge": 1e22, "negative": -1.5, "tiny": 1e-07}
 DESC = {"plain": "Fedora 22", "innerquote": "Fedora \"22\" it's", "blanks": "Red  Hat   Enterprise Linux 7.1", "unicode": "Fédora ünï 22",
         # a quote at one end only is not "wrapped in quotes"; characters some text APIs take for line ends are not line ends of the file syntax
-        "endquote": "Fedora \"21\"", "startquote": "'Twas Fedora 21", "separators": "Fedora 20\x0cServer\x1c\x85 \u2028x"}
+        "endquote": "Fedora \"21\"", "startquote": "'Twas Fedora 21", "separators": "Fedora 20\x0cServer\x1c\x85 \u2028x",
+        # a quote at either end, but not a pair: nothing wraps the text
+        "mixedquotes": "\"Fedora\" 20 'Heisenbug'"}
 DISCS = {"ALL": ["ALL"], "one": [1], "three": [1, 2, 3], "unsorted": [3, 1, 12]}
 
 
